@@ -65,6 +65,7 @@ type spec struct {
 	CfgSigHashes                                                                              []ztls.SigAndHash
 	SrvSigHash                                                                                []ztls.SigAndHash // zcrypto server SignatureAndHashes (DHE signature variety)
 	Seed                                                                                      uint64
+	Script                                                                                    string // scripted-server cases: description of the script (part of the case signature)
 }
 
 func (s spec) String() string {
